@@ -279,6 +279,10 @@ func (c *Core) forward(bp BundleDescriptor) {
 	var wg sync.WaitGroup
 	var once sync.Once
 
+	// The routing algorithms update their per-bundle bookkeeping by read-modify-write. Failure reports of several
+	// peers failing at the same moment must not interleave, or one of the updates is lost.
+	var failureMutex sync.Mutex
+
 	wg.Add(len(nodes))
 
 	for _, node := range nodes {
@@ -295,7 +299,9 @@ func (c *Core) forward(bp BundleDescriptor) {
 					"error":  err,
 				}).Warn("Sending bundle failed")
 
+				failureMutex.Lock()
 				c.routing.ReportFailure(bp, node)
+				failureMutex.Unlock()
 			} else {
 				log.WithFields(log.Fields{
 					"bundle": bp.ID(),
